@@ -62,6 +62,11 @@ def cases(tier, seed):
                     pts = [[g1, g2, 1.0], [0.0, g2, 0.0], [1.0, 0.0, 0.0], [-1.0, 1.0, g1], [0.0, 0.0, g2], [g2, -1.0, g1]]
                 for _ in range(ngen if not small else 0):
                     pts.append([float(x) for x in rng.normal(0, 1.5, 3)])
+                # other energy units: every parameter value is legal, also very small and very large ones
+                for sc in ((1e-9, 1e+7) if quick else (1e-9, 1e-12, 3e-7, 1e+7, 1e+12)):
+                    if not small:
+                        pts.append([float(x) * sc for x in rng.normal(0, 1.5, 3)])
+                        pts.append([g1 * sc, 0.0, g2 * sc])
                 for p in pts:
                     if not in_domain(model, L, p):
                         continue
